@@ -334,15 +334,17 @@ func (in *c20Inst) tabLine(n int, t0 bpv7.DtnTime, j uint64) string {
 	for _, e := range d.indexNode {
 		idx = append(idx, c20Name(e))
 	}
+	var flags []string
 	if len(d.indexNode) != d.length || len(d.nodeIndex) != d.length {
-		idx = append(idx, "?length")
+		flags = append(flags, "length")
 	}
 	for i, e := range d.indexNode {
-		if d.nodeIndex[e] != i {
-			idx = append(idx, "?inverse")
+		if k, ok := d.nodeIndex[e]; !ok || k != i {
+			flags = append(flags, "inverse")
+			break
 		}
 	}
-	return fmt.Sprintf("tab %d %d %d %s %s %s %s", n, uint64(t0), j, c20Join(links), c20Join(known), c20Join(tab), c20Join(idx))
+	return fmt.Sprintf("tab %d %d %d %s %s %s %s %s", n, uint64(t0), j, c20Join(links), c20Join(known), c20Join(tab), c20Join(idx), c20Join(flags))
 }
 
 func c20Join(l []string) string {
@@ -604,9 +606,18 @@ func c20Scenario(w *bufio.Writer, r *verifRng, scratch string, k int) {
 			continue
 		}
 		m := net.newCLA(fmt.Sprintf("n%d", v), c20Eid(v), true)
-		if r.intn(6) == 0 {
+		// transmission outcomes: mostly fine; some peers fail always, some fail their first one or two
+		// transmissions and then work, some fail a later one (several peers may fail in one run)
+		switch r.intn(8) {
+		case 0:
 			m.setDefault(false)
 			failing[v] = true
+		case 1:
+			m.setScript(false)
+		case 2:
+			m.setScript(false, false)
+		case 3:
+			m.setScript(true, false)
 		}
 		mocks[v] = m
 		verifPeerUp(c, m)
@@ -631,13 +642,20 @@ func c20Scenario(w *bufio.Writer, r *verifRng, scratch string, k int) {
 			fmt.Fprintf(w, "blk %s noblock\n", own)
 		}
 	}
-	c.checkPendingBundles()
-	steps = append(steps, c20Clas(c)+"|"+c20Sends(net.drain(false), ownBcast))
+	for i := 0; i < 2; i++ { // retry ticks: failed peers are offered the bundle again, the others are not
+		c.checkPendingBundles()
+		steps = append(steps, c20Clas(c)+"|"+c20Sends(net.drain(false), ownBcast))
+	}
 	extra := net.newCLA(fmt.Sprintf("n%d", n), c20Eid(n), true)
+	if r.intn(2) == 0 {
+		extra.setScript(false)
+	}
 	verifPeerUp(c, extra)
 	steps = append(steps, c20Clas(c)+"|"+c20Sends(net.drain(false), ownBcast))
-	c.checkPendingBundles()
-	steps = append(steps, c20Clas(c)+"|"+c20Sends(net.drain(false), ownBcast))
+	for i := 0; i < 2; i++ {
+		c.checkPendingBundles()
+		steps = append(steps, c20Clas(c)+"|"+c20Sends(net.drain(false), ownBcast))
+	}
 	if willBroadcast {
 		fmt.Fprintf(w, "bc - %s\n", strings.Join(steps, ";"))
 	}
@@ -697,8 +715,10 @@ func c20Scenario(w *bufio.Writer, r *verifRng, scratch string, k int) {
 		verifReceive(c, b, from)
 		relayed := func(p c20Parsed) bool { return p.bcast && p.src == strconv.Itoa(u) }
 		st := []string{c20Clas(c) + "|" + c20Sends(net.drain(false), relayed)}
-		c.checkPendingBundles()
-		st = append(st, c20Clas(c)+"|"+c20Sends(net.drain(false), relayed))
+		for i := 0; i < 2; i++ {
+			c.checkPendingBundles()
+			st = append(st, c20Clas(c)+"|"+c20Sends(net.drain(false), relayed))
+		}
 		fmt.Fprintf(w, "bc %s %s\n", prevName, strings.Join(st, ";"))
 	}
 	// recompute and report the table like the bulk instances do
@@ -978,6 +998,53 @@ func TestVerifC20(t *testing.T) {
 			}
 			k++
 		}
+	}
+
+	// ---- (2b) a neighbour x that is lost and then purged (purgePeers) while it never originated link
+	// state itself and another node's stored peer list still names it: x must stay a known node
+	// and stay reachable through that other node.
+	nPurge := 200
+	if thorough {
+		nPurge = 2000
+	}
+	for k := 0; k < nPurge && c20Hangs < 3; k++ {
+		n := 3 + r.intn(4)
+		x := n - 1
+		in := c20NewInst(core)
+		cfg := c20RandomConfig(r, n)
+		for v := 0; v < n; v++ {
+			cfg.links[x][v] = c20Link{kind: c20Absent}
+		}
+		cfg.links[0][1] = c20Link{kind: c20Live}
+		if r.intn(2) == 0 {
+			cfg.links[0][x] = c20Link{kind: c20Live}
+		} else {
+			cfg.links[0][x] = c20Link{kind: c20Lost, age: c20RandomAge(r)}
+		}
+		if r.intn(3) == 0 {
+			cfg.links[1][x] = c20Link{kind: c20Lost, age: c20RandomAge(r)}
+		} else {
+			cfg.links[1][x] = c20Link{kind: c20Live}
+		}
+		silentX := func(u int) bool { return u == x }
+		if !in.observe(w, cfg, silentX) {
+			continue
+		}
+		// x is purged; node 1's link state is either the stored one or refreshed
+		cfg.links[0][x] = c20Link{kind: c20Absent}
+		keepOld := r.intn(2) == 0
+		if !in.observe(w, cfg, func(u int) bool { return u == x || (keepOld && u == 1) }) {
+			continue
+		}
+		// one more round: other links change, x still only known through others
+		cfg2 := c20RandomConfig(r, n)
+		for v := 0; v < n; v++ {
+			cfg2.links[x][v] = c20Link{kind: c20Absent}
+		}
+		cfg2.links[0][x] = c20Link{kind: c20Absent}
+		cfg2.links[0][1] = cfg.links[0][1]
+		cfg2.links[1][x] = cfg.links[1][x]
+		in.observe(w, cfg2, func(u int) bool { return u == x || (keepOld && u == 1) })
 	}
 
 	// ---- (3) every arrival order of up to 5 (quick: 4, plus a sample of 5) link-state updates
